@@ -104,6 +104,127 @@ theorem each_draw_once (src : Nat → β × β) (reqs : List Bool) :
   ⟨(inv_run src reqs).2.1, (inv_run src reqs).2.2⟩
 end pairing
 
+/-! ## the generator shared with other consumers
+
+In the simulator every mode draws from the same `BoxMuller` object, so a joint draw may start at any position of the
+deviate stream (`d p` is the `p`-th deviate the generator hands out, whoever asks: `C18.fresh_generator`, `C18.calls_append`). -/
+section shared
+variable {β : Type}
+
+/-- the coordinator on a generator that a third consumer also draws from -/
+structure Shared (β : Type) where
+  c : Coord β
+  gotA : List β
+  gotB : List β
+  pos : Nat
+  starts : List Nat
+
+def Shared.init : Shared β := ⟨⟨[], [], []⟩, [], [], 0, []⟩
+
+def sharedStep (d : Nat → β) (joint : β → β → β × β) (s : Shared β) : Option Bool → Shared β
+  | none => { s with pos := s.pos + 1 }
+  | some isB =>
+    let r := s.c.request isB (joint (d s.pos) (d (s.pos + 1)))
+    { c := r.1
+      gotA := (match r.2.1 with | some x => if isB then s.gotA else s.gotA ++ [x] | none => s.gotA)
+      gotB := (match r.2.1 with | some x => if isB then s.gotB ++ [x] else s.gotB | none => s.gotB)
+      pos := if r.2.2 then s.pos + 2 else s.pos
+      starts := if r.2.2 then s.starts ++ [s.pos] else s.starts }
+
+def sharedRun (d : Nat → β) (joint : β → β → β × β) (ops : List (Option Bool)) : Shared β :=
+  ops.foldl (sharedStep d joint) Shared.init
+
+def SInv (d : Nat → β) (joint : β → β → β × β) (s : Shared β) : Prop :=
+  s.c.draws = s.starts.map (fun p => joint (d p) (d (p + 1))) ∧
+  s.gotA ++ s.c.qA = s.c.draws.map Prod.fst ∧
+  s.gotB ++ s.c.qB = s.c.draws.map Prod.snd ∧
+  (∀ p ∈ s.starts, p + 2 ≤ s.pos) ∧
+  s.starts.Pairwise (fun p q => p + 2 ≤ q)
+
+theorem sinv_init (d : Nat → β) (joint : β → β → β × β) : SInv d joint Shared.init := by
+  simp [SInv, Shared.init]
+
+theorem sinv_step (d : Nat → β) (joint : β → β → β × β) (s : Shared β) (op : Option Bool) (h : SInv d joint s) :
+    SInv d joint (sharedStep d joint s op) := by
+  obtain ⟨c, ga, gb, pos, starts⟩ := s
+  obtain ⟨hd, ha, hb, hp, hw⟩ := h
+  simp only at hd ha hb hp hw
+  cases op with
+  | none =>
+    refine ⟨hd, ha, hb, ?_, hw⟩
+    intro p hpm; have := hp p hpm; simp only [sharedStep]; omega
+  | some isB =>
+    have hpw : (starts ++ [pos]).Pairwise (fun p q => p + 2 ≤ q) := by
+      rw [List.pairwise_append]
+      refine ⟨hw, List.pairwise_singleton _ _, ?_⟩
+      intro a ha' b hb'; simp only [List.mem_singleton] at hb'; subst hb'; exact hp a ha'
+    have hpb : ∀ p ∈ starts ++ [pos], p + 2 ≤ pos + 2 := by
+      intro p hpm; rcases List.mem_append.mp hpm with h1 | h1
+      · have := hp p h1; omega
+      · simp only [List.mem_singleton] at h1; omega
+    cases isB
+    · cases hq : c.qA with
+      | nil =>
+        simp only [sharedStep, Coord.request, hq, List.isEmpty_nil, Bool.false_eq_true, ↓reduceIte, List.nil_append,
+          List.head?_cons, List.tail_cons, SInv]
+        refine ⟨?_, ?_, ?_, hpb, hpw⟩
+        · simp [hd]
+        · rw [hq] at ha; simp [← ha]
+        · simp [← hb]
+      | cons x xs =>
+        simp only [sharedStep, Coord.request, hq, List.isEmpty_cons, Bool.false_eq_true, ↓reduceIte, List.head?_cons, List.tail_cons, SInv]
+        refine ⟨hd, ?_, hb, hp, hw⟩
+        rw [hq] at ha; simp [← ha]
+    · cases hq : c.qB with
+      | nil =>
+        simp only [sharedStep, Coord.request, hq, List.isEmpty_nil, ↓reduceIte, List.nil_append, List.head?_cons, List.tail_cons, SInv]
+        refine ⟨?_, ?_, ?_, hpb, hpw⟩
+        · simp [hd]
+        · simp [← ha]
+        · rw [hq] at hb; simp [← hb]
+      | cons x xs =>
+        simp only [sharedStep, Coord.request, hq, List.isEmpty_cons, Bool.false_eq_true, ↓reduceIte, List.head?_cons, List.tail_cons, SInv]
+        refine ⟨hd, ha, ?_, hp, hw⟩
+        rw [hq] at hb; simp [← hb]
+
+theorem sinv_run (d : Nat → β) (joint : β → β → β × β) (ops : List (Option Bool)) : SInv d joint (sharedRun d joint ops) := by
+  have key : ∀ (l : List (Option Bool)) (s : Shared β), SInv d joint s → SInv d joint (l.foldl (sharedStep d joint) s) := by
+    intro l
+    induction l with
+    | nil => intro s h; exact h
+    | cons r rs ih => intro s h; exact ih _ (sinv_step d joint s r h)
+  exact key ops _ (sinv_init d joint)
+
+/-- **pairing on a shared generator**: whatever a third consumer takes from the generator in between, the `k`-th factor
+delivered to A and the `k`-th delivered to B are the two components of one joint draw, made from two *consecutive* deviates
+`d p`, `d (p+1)` of the stream, and no deviate serves two draws (the start positions are at least 2 apart) -/
+theorem shared_pairing (d : Nat → β) (joint : β → β → β × β) (ops : List (Option Bool)) (k : Nat) :
+    let s := sharedRun d joint ops
+    (∀ x, s.gotA[k]? = some x → ∃ p, s.starts[k]? = some p ∧ x = (joint (d p) (d (p + 1))).1) ∧
+    (∀ y, s.gotB[k]? = some y → ∃ p, s.starts[k]? = some p ∧ y = (joint (d p) (d (p + 1))).2) ∧
+    s.starts.Pairwise (fun p q => p + 2 ≤ q) ∧ (∀ p ∈ s.starts, p + 2 ≤ s.pos) := by
+  intro s
+  obtain ⟨hd, ha, hb, hp, hw⟩ := sinv_run d joint ops
+  have hidx : ∀ (z : β) (f : β × β → β), (s.c.draws.map f)[k]? = some z → ∃ p, s.starts[k]? = some p ∧ z = f (joint (d p) (d (p + 1))) := by
+    intro z f hz
+    rw [hd] at hz
+    simp only [List.map_map, List.getElem?_map, Option.map_eq_some_iff] at hz
+    obtain ⟨p, hp1, hp2⟩ := hz
+    exact ⟨p, hp1, hp2.symm⟩
+  refine ⟨?_, ?_, hw, hp⟩
+  · intro x hx
+    apply hidx x Prod.fst
+    rw [← ha, List.getElem?_append_left (List.getElem?_eq_some_iff.mp hx).1]; exact hx
+  · intro y hy
+    apply hidx y Prod.snd
+    rw [← hb, List.getElem?_append_left (List.getElem?_eq_some_iff.mp hy).1]; exact hy
+
+/-- non-vacuity: a third-party draw first (odd offset), then B, A, a third-party draw, A, B -/
+example : (sharedRun (fun n => n) (fun a b => (10 * a, 100 * b)) [none, some true, some false, none, some false, some true]).starts = [1, 4]
+  ∧ (sharedRun (fun n => n) (fun a b => (10 * a, 100 * b)) [none, some true, some false, none, some false, some true]).gotA = [10, 40]
+  ∧ (sharedRun (fun n => n) (fun a b => (10 * a, 100 * b)) [none, some true, some false, none, some false, some true]).gotB = [200, 500] := by decide
+end shared
+
 /-! ## the matrix square root of the log-covariance -/
 section root
 variable {K : Type} [Field K] [LinearOrder K] [IsStrictOrderedRing K] [DecidableEq K]
